@@ -96,6 +96,114 @@ theorem fillSeries_days (f : UnitDB → Nat) (units : List UnitDB) (cur : Nat) (
     have := sum_drop_le (units.map f) (units.length - countHours cur (units.length / 24))
     omega
 
+/-- What the loop adds into slot `j`: the values of the units whose position
+(counted from `i`) is mapped to `j`. -/
+def slotSum (f : UnitDB → Nat) (slot : Nat → Nat) : List UnitDB → Nat → Nat → Nat
+  | [], _, _ => 0
+  | u :: us, i, j => (if slot i = j then f u else 0) + slotSum f slot us (i + 1) j
+
+theorem addAt_getD (acc : List Nat) (k x : Nat) (a : List Nat) (h : addAt acc k x = some a) (j : Nat) :
+    a.getD j 0 = acc.getD j 0 + (if k = j then x else 0) := by
+  induction acc generalizing k j a with
+  | nil => simp [addAt] at h
+  | cons b rest ih =>
+    cases k with
+    | zero =>
+      simp only [addAt, Option.some.injEq] at h
+      subst h
+      cases j <;> simp
+    | succ k =>
+      simp only [addAt, Option.map_eq_some_iff] at h
+      obtain ⟨a', ha', rfl⟩ := h
+      cases j with
+      | zero => simp
+      | succ j =>
+        have := ih k a' ha' j
+        simp only [List.getD_cons_succ, this]
+        by_cases hkj : k = j <;> simp [hkj]
+
+theorem accum_slots (f : UnitDB → Nat) (slot : Nat → Nat) (us : List UnitDB) (i : Nat) (acc a : List Nat)
+    (h : accum f slot us i acc = .ok a) (j : Nat) :
+    a.getD j 0 = acc.getD j 0 + slotSum f slot us i j := by
+  induction us generalizing i acc with
+  | nil => simp only [accum, Except.ok.injEq] at h; subst h; simp [slotSum]
+  | cons u us ih =>
+    simp only [accum] at h
+    cases h1 : addAt acc (slot i) (f u) with
+    | none => simp [h1] at h
+    | some a1 =>
+      simp only [h1] at h
+      rw [ih (i + 1) a1 h, addAt_getD acc (slot i) (f u) a1 h1 j]
+      simp only [slotSum]
+      omega
+
+theorem getD_replicate_zero (n j : Nat) : (List.replicate n 0).getD j 0 = 0 := by
+  induction n generalizing j with
+  | zero => simp
+  | succ n ih =>
+    cases j with
+    | zero => simp [List.replicate_succ]
+    | succ j => have := ih j; simpa [List.replicate_succ] using this
+
+theorem sum_take_drop (l : List Nat) (k : Nat) : (l.take k).sum + (l.drop k).sum = l.sum := by
+  induction l generalizing k with
+  | nil => simp
+  | cons a l ih =>
+    cases k with
+    | zero => simp
+    | succ k => have := ih k; simp; omega
+
+/-- The daily series, exactly: it is filled from the last `countHours` units
+(the day-aligned tail), position `p` of the tail goes to day `p / 24`; what is
+missing from the total is exactly the head that was skipped. -/
+theorem fillSeries_days_exact (f : UnitDB → Nat) (units : List UnitDB) (cur : Nat) (h : units.length / 24 > 7) :
+    ∃ a, fillSeries f units cur = .ok (true, a) ∧ a.length = units.length / 24 ∧
+      a.sum + ((units.take (units.length - countHours cur (units.length / 24))).map f).sum = (units.map f).sum ∧
+      ∀ j, a.getD j 0 =
+        slotSum f (· / 24) (units.drop (units.length - countHours cur (units.length / 24))) 0 j := by
+  have hc := countHours_le cur (units.length / 24) (by omega)
+  have hlen : ¬ countHours cur (units.length / 24) > units.length := by
+    have : units.length / 24 * 24 ≤ units.length := Nat.div_mul_le_self ..
+    omega
+  have hslot : ∀ j, 0 ≤ j →
+      j < 0 + (units.drop (units.length - countHours cur (units.length / 24))).length →
+      j / 24 < (List.replicate (units.length / 24) 0).length := by
+    intro j _ hj
+    simp only [List.length_drop, List.length_replicate] at *
+    omega
+  obtain ⟨a, e, l, s⟩ := accum_ok f (· / 24) _ 0 (List.replicate (units.length / 24) 0) hslot
+  refine ⟨a, ?_, by simpa using l, ?_, ?_⟩
+  · simp only [fillSeries, h, if_true, hlen, if_false, e]
+  · rw [s, sum_replicate_zero, List.map_drop, List.map_take]
+    have := sum_take_drop (units.map f) (units.length - countHours cur (units.length / 24))
+    omega
+  · intro j
+    rw [accum_slots f (· / 24) _ 0 _ a e j, getD_replicate_zero]
+    omega
+
+/-- The series of an answer are the results of `fillSeries`. -/
+theorem dataFromUnits_series (units : List UnitDB) (cur : Nat) (r : Resp) (h : dataFromUnits units cur = .ok r) :
+    fillSeries (·.nTotal) units cur = .ok (r.days, r.dnsQueries) ∧
+    (∃ d, fillSeries (·.nResult 2) units cur = .ok (d, r.blockedFiltering)) ∧
+    (∃ d, fillSeries (·.nResult 3) units cur = .ok (d, r.replacedSafebrowsing)) ∧
+    (∃ d, fillSeries (·.nResult 5) units cur = .ok (d, r.replacedParental)) := by
+  simp only [dataFromUnits, bind, Except.bind, pure, Except.pure] at h
+  cases h1 : fillSeries (·.nTotal) units cur with
+  | error e => simp [h1] at h
+  | ok p1 =>
+    cases h2 : fillSeries (·.nResult 2) units cur with
+    | error e => simp [h1, h2] at h
+    | ok p2 =>
+      cases h3 : fillSeries (·.nResult 3) units cur with
+      | error e => simp [h1, h2, h3] at h
+      | ok p3 =>
+        cases h4 : fillSeries (·.nResult 5) units cur with
+        | error e => simp [h1, h2, h3, h4] at h
+        | ok p4 =>
+          simp only [h1, h2, h3, h4, Except.ok.injEq] at h
+          subst h
+          exact ⟨rfl, ⟨_, rfl⟩, ⟨_, rfl⟩, ⟨_, rfl⟩⟩
+
 /-- `dataFromUnits` never fails; totals are the sums over the units; hourly
 series are the per-unit values in order; daily series never exceed the totals. -/
 theorem dataFromUnits_spec (units : List UnitDB) (cur : Nat) :
